@@ -1,5 +1,6 @@
 """Contracts for the installed `timeslot` dependency (its source is verified, not assumed: the file
 under /venv/.../site-packages/timeslot/timeslot.py is parsed and symbolically executed on every run)."""
+from pyvc.specrt import *  # noqa: F401,F403
 from pyvc.api import contract, spec
 
 TS = "timeslot.timeslot.Timeslot"
